@@ -19,7 +19,8 @@ MAX_LEN = 20000
 SPLINE_MAX = 3000
 
 
-TREND_FAMILIES = ["poly", "sin", "const", "npscalar", "poly_sum", "poly_dot", "daily_inplace", "math_sin", "step"]
+TREND_FAMILIES = ["poly", "sin", "const", "npscalar", "poly_sum", "poly_dot", "daily_inplace", "math_sin", "step",
+                  "late_ramp", "clipped"]
 
 
 def trend_fun(desc):
@@ -49,6 +50,10 @@ def trend_fun(desc):
         return lambda t: c[0] * math.sin(c[1] * t + c[2])
     if kind == "step":
         return lambda t: c[0] if t < c[1] else c[2]
+    if kind == "late_ramp":         # "growth starts later": the int literal 0 first, fractions afterwards
+        return lambda t: 0 if t < c[1] else c[0] * (t - c[1])
+    if kind == "clipped":           # max(0, ...) returns the int 0 or a float
+        return lambda t: max(0, c[0] * (t - c[1]))
     raise KeyError(kind)
 
 
@@ -75,6 +80,9 @@ def gen_trend(rng, x, y, normalized, families=None):
     elif fam == "step":
         lo, hi = (0.0, 1.0) if normalized else (float(x[0]), float(x[-1]))
         c = [mag * c[0], lo + (hi - lo) * float(rng.uniform(0.1, 0.9)), mag * c[2]]
+    elif fam in ("late_ramp", "clipped"):
+        lo, hi = (float(x[0]) / span, float(x[-1]) / span) if normalized else (float(x[0]), float(x[-1]))
+        c = [abs(mag * c[0]) / max(hi - lo, 1e-300), lo + (hi - lo) * float(rng.uniform(0.1, 0.7))]
     else:
         c = [mag * c[0] / s, mag * c[1]]
     return {"family": fam, "coef": c}
@@ -210,9 +218,15 @@ def _gen_op(rng, wv, allow=None, new_x_container=True):
                 a, b = sorted(rng.uniform(0.0, 1.0, 2))
                 if b - a < 0.2:
                     continue
-                if rng.integers(0, 2):
+                t = int(rng.integers(0, 4))
+                if t == 0:
                     return {"op": op, "args": [float(a), float(b)],
                             "kw": {"x_left_as_ratio": True, "x_right_as_ratio": True}}
+                if t == 1 and float(x[0]) == float(rx[0]) and float(x[-1]) == float(rx[-1]):
+                    # one bound as a ratio, the other as a value (admissible while both series span the same range)
+                    if rng.integers(0, 2):
+                        return {"op": op, "args": [float(a), lo + b * (hi - lo)], "kw": {"x_left_as_ratio": True}}
+                    return {"op": op, "args": [lo + a * (hi - lo), float(b)], "kw": {"x_right_as_ratio": True}}
                 return {"op": op, "args": [lo + a * (hi - lo), lo + b * (hi - lo)], "kw": {}}
         elif op == "truncate_by_index":
             # indices are only meaningful while working and reference series are the same samples
